@@ -55,10 +55,12 @@ CHECKS = {
  "C15": ("exploration", "reference-model monitor at the blockstore interface incl. cancelled contexts, aliases and hash-on-read",
          "Generated blockstore histories over blocks of all sizes incl. empty, four hash functions, CIDv0/v1 x three codecs, mismatching (CID, bytes) pairs, live and cancelled contexts on every method and HashOnRead toggles are compared call by call with a map keyed by multihash and the expected error classes.",
          "digests >= 4 bytes; first write wins per multihash", "5 C15"),
+ "C17": ("exploration", "resource monitors (goroutine profiles, /proc/self/fd, directory hashes, hook-event silence) around Close issued at random moments, with collectors/flusher parked mid-way by gates, after failing opens and over 200 open/close cycles; race build",
+         "After Close returned: no store hook event fires any more, no descriptor into the store directories is open, no store goroutine stays blocked over three profiles, the directory hash is stable, and the reopened store equals the model before and after GC; failed opens leave no descriptor or goroutine; nothing accumulates over cycles. A Close that never returns is reported by the watchdog with the goroutine dump.",
+         "clients have stopped when Close is issued; runnable goroutines are resampled, only blocked ones count", "5 C17"),
 }
 
 NOT_YET = {
- "C17": "check under construction (see DESIGN.md section 5)",
 }
 
 def main():
